@@ -32,6 +32,8 @@ def register(PROPS, CLASSIFIERS, REPLAY_RUNNERS):
 
     # ------------------------------------------------------------------ C14 lifecycle / C04 ordering
     def _c14_replay(case, obs, flavor):
+        if "c14stop" in case:       # stop() inside a macrostep (c14stop.py): the payload carries its own scenario
+            return _call("c14stop", "replay_problems")(case["c14stop"], flavor, case.get("finding_classifier"))
         return _call("c14", "replay_monitor")("C14", case, flavor)
 
     def _c04_replay(case, obs, flavor):
@@ -90,7 +92,8 @@ def register(PROPS, CLASSIFIERS, REPLAY_RUNNERS):
         "replay": lambda prop, path: _call("c17", "replay_main")(prop, path),
     }
     for _n in ("c17-guard-structure-lost-pythonic", "c17-stateIn-stub-overrides-builtin",
-               "c17-json-template-name-not-extracted", "c17-json-template-name-not-discoverable",
+               "c17-json-template-name-not-extracted", "c17-json-template-operator-named-guard-not-extracted",
+               "c17-json-template-name-not-discoverable",
                "c17-single-file-invalid-python", "c17-service-alias-raw-identifier",
                "c17-single-file-stub-name-collision"):
         CLASSIFIERS[_n] = _c17cls(_n)
@@ -125,7 +128,7 @@ def register(PROPS, CLASSIFIERS, REPLAY_RUNNERS):
                     "q_checks": [_lazy("c08", n) for n in ("c09_async", "c09_instants", "c09_deep", "c09_sync")],
                     "lake_targets": ["driver_rt"], "thorough_scale": 12}
     for _n in ("stale-queued-after-event", "after-alternatives-fire-once-each", "rollback-leaves-or-duplicates-tasks",
-               "stale-queued-done-event"):
+               "stale-queued-done-event", "stop-inside-macrostep-rest-runs"):
         CLASSIFIERS[_n] = _c08cls(_n)
 
     # ------------------------------------------------------------------ C05: the pure API, modelled (Model/Pure.lean)
@@ -179,3 +182,32 @@ def register(PROPS, CLASSIFIERS, REPLAY_RUNNERS):
     PROPS["C15"]["q_checks"].append(_lazy("c15react", "c15_reacting"))
     # `./check C15 quick --replay <file>`: C15 cases are actor-tree op sequences, not engine cases - c15.main runs them
     PROPS["C15"]["replayer"] = lambda prop, path: _call("c15", "main")(["c15", "--replay", path])
+
+    # ------------------------------------------------------------------ F70: bursts of short chains (C04 + C13)
+    def _burst_of_short_chains_cut(prob, case, flavor):
+        """F70 (both engines, C04 and C13): a bound cut discarded RAISED events in a call in which no external event's
+        causal tree (rule `short-chains-cut-by-burst` of c14.c04_monitor) exceeded maxIterations - the bounds count
+        self-raised events per busy period, not per causal chain. Nothing else is matched: an external event lost,
+        a raised event lost without a cut, a hang, a cut of a single short chain (C13 `short-chain-cut`) stay violations"""
+        return (prob.get("kind") == "short-chains-cut-by-burst" and bool(prob.get("cut")) and bool(prob.get("lost"))
+                and isinstance(prob.get("largest"), int) and prob["largest"] <= prob.get("limit", -1))
+    CLASSIFIERS["burst-of-short-chains-is-cut"] = _burst_of_short_chains_cut
+
+    # C13 "chains shorter than the bound run to their natural end", per causal chain: the bursts of c14.py under the
+    # causal-tree rule alone (q_check), and the replay of a payload that carries lifecycle `calls` (F70)
+    def _c13_burst_replay(case, obs, flavor):
+        if "calls" not in case:
+            return []
+        return [p for p in _call("c14", "replay_monitor")("C04", case, flavor)
+                if p.get("kind") in ("short-chains-cut-by-burst", "hang", "raw-exception")]
+    PROPS["C13"]["oracles"] = list(PROPS["C13"]["oracles"]) + [_c13_burst_replay]
+    PROPS["C13"].setdefault("q_checks", []).append(_lazy("c14", "c13_bursts_of_short_chains"))
+    PROPS["C13"].setdefault("lake_targets", []).append("driver_life")
+
+    # ------------------------------------------------------------------ C14: stop() INSIDE a macrostep (directed, both engines; F72)
+    PROPS["C14"]["q_checks"].append(_lazy("c14stop", "c14_stop_mid_macrostep"))
+
+    def _c14stopcls(prob, case, flavor):
+        from . import c14stop
+        return c14stop.CLASSIFIERS["c14-stop-inside-macrostep-rest-runs"](prob, case, flavor)
+    CLASSIFIERS["c14-stop-inside-macrostep-rest-runs"] = _c14stopcls
